@@ -44,7 +44,7 @@ partial def vlqRange (lo hi : Int) : String := Id.run do
 
 def fits63 (ds : List Nat) : Bool :=
   let (gs, _) := Vlq.splitGroups ds []
-  gs.all fun g => decide (Vlq.groupValue g < 9223372036854775808)
+  gs.all fun g => decide (13 < g.length) || decide (Vlq.groupValue g < 9223372036854775808)
 
 def parseTok (s : String) : Tok :=
   let f := (s.splitOn ":").map parseNat
